@@ -213,7 +213,10 @@ impl PlanB {
     pub fn yaml(&self) -> String {
         let mut s = String::from("---\n");
         s.push_str(&format!("addresses: [{}]\n", self.addresses.iter().map(|a| format!("\"{}\"", a)).collect::<Vec<_>>().join(", ")));
-        if !(self.listeners.len() == 1 && self.listeners[0] == "default") {
+        if self.listeners.len() == 1 && self.listeners[0] == "bind-interfaces" {
+            /* no dns-listeners: one socket per interface address inside `addresses` */
+            s.push_str("default-listen-style: bind-addresses-interfaces\n");
+        } else if !(self.listeners.len() == 1 && self.listeners[0] == "default") {
             s.push_str(&format!("dns-listeners: [{}]\n", self.listeners.iter().map(|a| format!("\"{}\"", a)).collect::<Vec<_>>().join(", ")));
         }
         s.push_str("api-listeners: []\n");
@@ -731,6 +734,13 @@ pub fn generate(seed: u64, g: &GenB) -> PlanB {
     }
     if shape == "pipeline" {
         add_pipelines(&mut p, &mut r);
+    }
+    {
+        let mut k = Rng::new(seed, "plan-b-listen-style");
+        if p.listeners.len() == 1 && p.listeners[0] == "default" && k.chance(0.3) {
+            /* same destinations, reached through per-address sockets instead of the wildcard */
+            p.listeners = vec!["bind-interfaces".into()];
+        }
     }
     {
         /* knobs added later draw from their own stream, so that older seeds keep their plans */
